@@ -10,7 +10,7 @@ import sys
 from abc import ABCMeta, abstractmethod
 from contextlib import contextmanager
 from types import CodeType, FrameType
-from typing import Any, Callable, Dict, Iterator, Optional, Union, cast
+from typing import Any, Callable, Dict, Iterator, Optional, Tuple, Union, cast
 
 import opcode
 
@@ -221,15 +221,20 @@ class CallTracer:
         self.logger = logger
         self.traces: Dict[FrameType, CallTrace] = {}
         self.sample_rate = sample_rate
-        self.cache: Dict[CodeType, Optional[Callable[..., Any]]] = {}
+        self.cache: Dict[int, Tuple[CodeType, Optional[Callable[..., Any]]]] = {}
         self.should_trace = code_filter
         self.max_typed_dict_size = max_typed_dict_size
 
     def _get_func(self, frame: FrameType) -> Optional[Callable[..., Any]]:
         code = frame.f_code
-        if code not in self.cache:
-            self.cache[code] = get_func(frame)
-        return self.cache[code]
+        # Code objects compare by value, so distinct functions can have equal
+        # code (e.g. the generated __init__ of two dataclasses with the same
+        # fields): cache by identity, not by equality.
+        entry = self.cache.get(id(code))
+        if entry is None or entry[0] is not code:
+            entry = (code, get_func(frame))
+            self.cache[id(code)] = entry
+        return entry[1]
 
     def handle_call(self, frame: FrameType) -> None:
         if self.sample_rate and random.randrange(self.sample_rate) != 0:
